@@ -503,7 +503,52 @@ func floorDiv(a, b *big.Int) *big.Int {
 	return q // DivMod is Euclidean; for b>0 this is floor
 }
 
+// ratCompare decides (num/den) op c exactly with integers when c*den is an integer (den > 0).
+func ratCompare(op token.Token, f symFloat, c float64, flipped bool) (value, bool) {
+	if f.num == nil || math.IsNaN(c) || math.IsInf(c, 0) {
+		return nil, false
+	}
+	prod := new(big.Float).Mul(big.NewFloat(c), new(big.Float).SetInt64(f.den))
+	if !prod.IsInt() {
+		return nil, false
+	}
+	bound, _ := prod.Int(nil)
+	l, r := f.num, intConst(bound)
+	if flipped {
+		l, r = r, l
+	}
+	switch op {
+	case token.LSS:
+		return mkBool(tCmp("<", l, r)), true
+	case token.LEQ:
+		return mkBool(tCmp("<=", l, r)), true
+	case token.GTR:
+		return mkBool(tCmp(">", l, r)), true
+	case token.GEQ:
+		return mkBool(tCmp(">=", l, r)), true
+	case token.EQL:
+		return mkBool(tCmp("=", l, r)), true
+	case token.NEQ:
+		return mkBool(tNot(tCmp("=", l, r))), true
+	}
+	return nil, false
+}
+
 func (i *interpreter) symFloatBinop(op token.Token, x, y value) value {
+	if xf, ok := x.(symFloat); ok {
+		if c, ok := y.(float64); ok {
+			if v, ok := ratCompare(op, xf, c, false); ok {
+				return v
+			}
+		}
+	}
+	if yf, ok := y.(symFloat); ok {
+		if c, ok := x.(float64); ok {
+			if v, ok := ratCompare(op, yf, c, true); ok {
+				return v
+			}
+		}
+	}
 	a, b := fpTerm(x), fpTerm(y)
 	switch op {
 	case token.ADD:
